@@ -172,12 +172,21 @@ func strictPrintable(s string) bool {
 	return true
 }
 
-func genATVFor(r *rand.Rand) genATV {
+func genATVFor(r *rand.Rand, canonicalOnly bool) genATV {
 	var a genATV
 	if r.IntN(4) == 0 {
 		a.OID = genUnknownOID(r)
 	} else {
 		a.OID = allNameOIDs[r.IntN(len(allNameOIDs))]
+	}
+	if canonicalOnly {
+		// the string type the marshaller itself would pick for the value
+		a.Val, _ = genValue(r)
+		a.Tag = tagUTF8
+		if strictPrintable(a.Val) {
+			a.Tag = tagPrintable
+		}
+		return a
 	}
 	switch t := r.IntN(20); {
 	case t < 7:
@@ -246,7 +255,8 @@ func c22Backward(c *core.Ctx, r *rand.Rand, n int) {
 		id := fmt.Sprintf("bwd-%d-%d", c.Shard, i)
 		nr := r.IntN(7)
 		canonical := true
-		sorted := r.IntN(5) != 0
+		canonMode := r.IntN(2) == 0
+		sorted := canonMode || r.IntN(5) != 0
 		var rdnsDER [][]byte
 		var order [][]genATV // attributes in the order they appear in the bytes
 		usedTags := map[byte]bool{}
@@ -258,7 +268,7 @@ func c22Backward(c *core.Ctx, r *rand.Rand, n int) {
 			atvs := make([]genATV, k)
 			enc := make([][]byte, k)
 			for x := range atvs {
-				atvs[x] = genATVFor(r)
+				atvs[x] = genATVFor(r, canonMode)
 				if r.IntN(6) == 0 && x > 0 {
 					atvs[x].OID = atvs[0].OID // repeated type inside one RDN
 				}
